@@ -96,9 +96,8 @@ MUTANTS = [
     ("C23", "absent-names-not-deleted", GI + "tracing/builtins_mock.py",
      "            if x not in old:\n                del f.__globals__[x]\n",
      "            if x not in old:\n                pass\n"),
-    ("C23", "mutate-builtins-module", GI + "tracing/builtins_mock.py",
-     "    f.__globals__.update(mock)\n    try:\n        yield\n",
-     "    f.__globals__.update(mock)\n    builtins.len = len\n    try:\n        yield\n"),
+    ("C23", "restore-only-when-tracing-succeeds", GI + "tracing/builtins_mock.py",
+     "    try:\n        yield\n    finally:\n", "    try:\n        yield\n    except GeneratorExit:\n        raise\n    else:\n"),
     ("C23", "restore-skips-len", GI + "tracing/builtins_mock.py",
      "        f.__globals__.update(old)\n",
      "        f.__globals__.update({k: v for k, v in old.items() if not callable(v) or k != 'len'})\n"),
